@@ -1394,6 +1394,11 @@ def run(ctx):
     fc.run_chunks(ctx, 'c13', payloads)
     if wit is not None:
         ctx.notes.append('Lean witness Witness.C13 (fix.witness) replayed on the implementation')
+    n_short_corpus = len([f for f in os.listdir(os.path.join(common.VERIF, 'corpus', 'C13')) if f.startswith('short-')]) \
+        if os.path.isdir(os.path.join(common.VERIF, 'corpus', 'C13')) else 0
+    if n_short_corpus:
+        ctx.notes.append(f'{n_short_corpus} messages of Props/C13Short.lean / Witness/C13Short.lean (corpus/C13/short-*.json: 3-byte group '
+                         'instances closing the message) replayed on the implementation')
 
 
 def stale_type(by_name, b):
